@@ -1,30 +1,30 @@
 ------------------------- MODULE SecurityManagerGen -------------------------
 (* Behaviour generator for C32-C35: transition cover of the state graph of SecurityManager (all    *)
-(* guards on) for one manager configuration. TLC explores the graph breadth first with the history *)
+(* guards on) for a set of manager configurations. TLC explores the graph breadth first with the history *)
 (* hidden by a VIEW, so every distinct spec state is reached by one shortest input sequence, and   *)
 (* the action constraint prints  <shortest path to s> + <input of the transition>  for *every*     *)
 (* transition s -> t: one implementation test per transition of the model.                         *)
 (* Only the inputs are replayed; what the real code answers is judged by trace validation.         *)
 EXTENDS SecurityManager, TLC, Json
 
-CONSTANTS GKind, GIn, GOut, GMitm, GBond,   \* the compiled configuration
-          GOobs, GSyncs,                    \* OOB data present? / user answer timing: sets to choose from at Reset
-          GReqs,                            \* Pairing Requests: set of <<io, oob, auth, maxkey, idist, rdist>>
+CONSTANTS GConfigs,                         \* set of cfg records (compiled configuration + OOB data present + answer timing)
+          GReqsOf(_),                       \* cfg -> Pairing Requests: set of <<io, oob, auth, maxkey, idist, rdist>>
           GPdus,                            \* other PDUs: set of <<opcode, lenclass, label>>
           GFinds,                           \* find_key probes: subset of 0..3
-          D                                 \* maximal number of inputs per behaviour
+          GEnc,                             \* BOOLEAN: encryption changes are inputs (else only the probes appended by the check)
+          GDepthOf(_)                       \* cfg -> maximal number of inputs per behaviour
 VARIABLE hist
 gvars == <<vars, hist>>
 GView == vars
 
-GConfigs == { [kind |-> GKind, in |-> GIn, out |-> GOut, mitm |-> GMitm, bond |-> GBond, oob |-> o, sync |-> s] :
-              o \in GOobs, s \in GSyncs }
 NoRequests == {}
 NoOps == {}
 AllProps == {"C32", "C33", "C34", "C35"}
 
 B(b) == IF b THEN 1 ELSE 0
-GInit == \E c \in GConfigs : InitWith(c) /\ hist = << <<"reset", B(c.oob), c.sync>> >>
+KindNo(k) == CASE k = "legacy" -> 0 [] k = "lesc" -> 1 [] OTHER -> 2
+GInit == \E c \in GConfigs :
+            InitWith(c) /\ hist = << <<"reset", B(c.oob), c.sync, KindNo(c.kind), c.in, c.out, B(c.mitm), B(c.bond)>> >>
 
 Do(op) == hist' = Append(hist, op)
 
@@ -34,19 +34,19 @@ RecOf(r) == [io |-> r[1], oob |-> r[2], auth |-> r[3], maxkey |-> r[4], idist |-
 \* with the OOB flag of the response telling the truth or being 0
 AlgsFor(r) ==
     IF r[1] \notin IoCap THEN {"just_works"} ELSE
-    LET ioR == IoCapOf(GIn, GOut) IN
+    LET ioR == IoCapOf(cfg.in, cfg.out) IN
     UNION { { Method(r[1], r[2] = 1, r[3], ioR, oobR, RAuth), MethodIgnoringMitm(r[1], r[2] = 1, r[3], ioR, oobR, RAuth) } :
             oobR \in {cfg.oob, FALSE} }
 
 GNext ==
-    /\ Len(hist) <= D
-    /\ \/ \E r \in GReqs : \E o \in {"response", "failed"}, a \in AlgsFor(r) :
+    /\ Len(hist) <= GDepthOf(cfg)
+    /\ \/ \E r \in GReqsOf(cfg) : \E o \in {"response", "failed"}, a \in AlgsFor(r) :
              Req(RecOf(r), o, RAuth, a) /\ Do(<<"req", r[1], r[2], r[3], r[4], r[5], r[6]>>)
        \/ \E p \in GPdus, o \in Outs :
              Pdu(p[1], p[2], p[3], o, alg = "numeric_comparison") /\ Do(<<"pdu", p[1], p[2], p[3]>>)
        \/ \E o \in Outs : Poll(o) /\ Do(<<"poll">>)
-       \/ \E b \in BOOLEAN : GIn = 1 /\ cfg.sync = -1 /\ User(b) /\ Do(<<"user", B(b)>>)
-       \/ \E b \in BOOLEAN : b # enc /\ Enc(b) /\ Do(<<"enc", B(b)>>)
+       \/ \E b \in BOOLEAN : cfg.in = 1 /\ cfg.sync = -1 /\ User(b) /\ Do(<<"user", B(b)>>)
+       \/ \E b \in BOOLEAN : GEnc /\ b # enc /\ Enc(b) /\ Do(<<"enc", B(b)>>)
        \/ \E w \in GFinds : Find(w, FALSE, "none", FALSE) /\ Do(<<"find", w>>)
 
 GSpec == GInit /\ [][GNext]_gvars
